@@ -100,9 +100,23 @@ def r1_inventory(rep, facts, cg):
     roots, reach, sites, where = inventory(facts, cg)
     allow = load_allow()
     rep.info(R, f'{len(roots)} roots, {len(reach)} reachable bodies, {sum(sites.values())} sites in {len(sites)} groups')
+    # arithmetic overflow checks of one function are reviewed together (the reasons bound the operands, not the operator): rewriting
+    # `sign * m` as `-m` or `a + 1` as `a - (-1)` moves a site from one kind to another without adding one
+    arith_allow = {}
+    arith_found = {}
+    for (fn, kind, what), e in allow.items():
+        if kind == 'assert' and what.startswith('overflow:'):
+            arith_allow[fn] = arith_allow.get(fn, 0) + e['count']
+    for (fn, kind, what), n in sites.items():
+        if kind == 'assert' and what.startswith('overflow:'):
+            arith_found[fn] = arith_found.get(fn, 0) + n
     for key, n in sorted(sites.items()):
         e = allow.get(key)
         k = f'{key[0]}|{key[1]}|{key[2]}'
+        if key[1] == 'assert' and key[2].startswith('overflow:') and key[0] in arith_allow and arith_found[key[0]] <= arith_allow[key[0]] and (e is None or n > e['count']):
+            any_e = [v for (fn, kind, what), v in allow.items() if fn == key[0] and kind == 'assert' and what.startswith('overflow:')]
+            rep.ok(R, k, f'x{n} (arithmetic checks of this function: {arith_found[key[0]]} found, {arith_allow[key[0]]} reviewed): {any_e[0]["reason"]}', where[key])
+            continue
         if e is None:
             rep.bad(R, k + '|unreviewed', f'`{key[0]}` contains {n} unreviewed potential panic(s) of kind {key[1]} ({key[2]}) reachable from the entry points: '
                     f'an input that reaches it in a bad state aborts the caller', where[key])
@@ -187,7 +201,9 @@ def r4_progress(rep, facts, g):
                     rep.check(R, key, ok, 'while let Some(_) = opt(p): p consumes input', f'`{short(d)}`: the loop continues on Some(_) of a parser that can succeed on empty input', loc)
                 else:
                     node = x.get('node') or {}
-                    cmpbreak = any(n.get('k') == 'if' and peel(n['cond']).get('k') == 'binary' and peel(n['cond']).get('op') == '==' and any(y.get('k') == 'break' for y in walk(n['then']))
+                    # leaving the loop when the checkpoint did not move: `break` or `return Ok(..)` under `start == end`
+                    cmpbreak = any(n.get('k') == 'if' and peel(n['cond']).get('k') == 'binary' and peel(n['cond']).get('op') == '==' and
+                                   any(y.get('k') == 'break' or (y.get('k') == 'ret' and not y.get('x')) for y in walk(n['then']))
                                    for n in walk(node))
                     cps = sum(1 for n in walk(facts.bodies[d]['body']) if n.get('k') == 'mcall' and n.get('name') == 'checkpoint')
                     ok = (not pm.nullable_of(g, p)) or (cmpbreak and cps >= 2)
